@@ -380,9 +380,12 @@ impl store::Cob for Identity {
     ) -> Result<(), ApplyError> {
         let id = op.id;
         let concurrent = concurrent.into_iter().collect::<Vec<_>>();
+        // Apply the actions to a copy of the state, so that an operation
+        // which fails half-way through doesn't take partial effect.
+        let mut next = self.clone();
 
         for action in op.actions {
-            match self.action(action, id, op.author, op.timestamp, &concurrent, repo) {
+            match next.action(action, id, op.author, op.timestamp, &concurrent, repo) {
                 Ok(()) => {}
                 // This particular error is returned when there is a mismatch between the expected
                 // and the actual state of a revision, which can happen concurrently. Therefore
@@ -397,9 +400,11 @@ impl store::Cob for Identity {
                 Err(ApplyError::Redacted) => {}
                 Err(other) => return Err(other),
             }
-            debug_assert!(!self.timeline.contains(&id));
-            self.timeline.push(id);
+            debug_assert!(!next.timeline.contains(&id));
+            next.timeline.push(id);
         }
+        *self = next;
+
         Ok(())
     }
 }
